@@ -8,6 +8,8 @@ package main
 //      recheck) and Simulate of the next block's transactions and of random ones;
 //   D  a second continuous replica in a separate OS process (this binary re-executed with `-suite replica-d`) with a
 //      different GOMAXPROCS; Go's map iteration seed differs per process.
+//   E  a replica over an on-disk database (goleveldb under .work) whose OS PROCESS is ended and started again at sampled
+//      block boundaries (every 15..50 blocks): B's in-process re-creation cannot lose package-level variables, E does.
 // Compared at every height: AppHash, the digest of every ExecTxResult (code, codespace, data, gas, events; the log text is
 // excluded exactly as CometBFT excludes it from LastResultsHash) and of the block events; at sampled heights the digest of
 // the whole exported application state (ExportAppStateAndValidators).
@@ -21,10 +23,12 @@ import (
 	"fmt"
 	"os"
 	"os/exec"
+	"path/filepath"
 	"strings"
 	"time"
 
 	abci "github.com/cometbft/cometbft/abci/types"
+	dbm "github.com/cosmos/cosmos-db"
 	"github.com/cosmos/cosmos-sdk/crypto/keys/ed25519"
 	sdk "github.com/cosmos/cosmos-sdk/types"
 	banktypes "github.com/cosmos/cosmos-sdk/x/bank/types"
@@ -39,6 +43,7 @@ import (
 func init() {
 	suites["replica"] = runReplica
 	suites["replica-d"] = runReplicaChild
+	suites["replica-e"] = runReplicaSegment
 }
 
 type blockRec struct {
@@ -279,30 +284,73 @@ func runReplica(seed uint64, ops int, out string) map[string]int {
 	// D: the same history in another OS process with a different GOMAXPROCS
 	dObs := map[int64]nodeObs{}
 	dState := "ok"
-	if os.Getenv("VERIF_NO_D") == "" {
-		cmd := exec.Command(os.Args[0], "-suite", "replica-d", "-out", histPath)
-		cmd.Env = append(os.Environ(), "GOMAXPROCS=2")
-		cmd.Stderr = os.Stderr
-		if err := cmd.Run(); err != nil {
-			dState = "failed"
-			fmt.Fprintln(os.Stderr, "replica: child process failed:", err)
-		} else if f, err := os.Open(histPath + ".d"); err == nil {
+	dDone := make(chan struct{})
+	go func() { // D and E are independent OS processes: run them side by side
+		defer close(dDone)
+		runD(histPath, dObs, &dState)
+	}()
+
+	// E: on-disk database, the OS process restarted at sampled block boundaries
+	eObs := map[int64]nodeObs{}
+	eState := "ok"
+	if os.Getenv("VERIF_NO_E") == "" && len(recs) > 0 {
+		os.RemoveAll(histPath + ".edb")
+		os.Remove(histPath + ".e")
+		last := recs[len(recs)-1].height
+		for from := int64(1); from <= last; {
+			to := from + int64(15+r.Intn(36)) - 1
+			if to > last {
+				to = last
+			}
+			cmd := exec.Command(os.Args[0], "-suite", "replica-e", "-out", histPath, "-seed", fmt.Sprint(from), "-ops", fmt.Sprint(to))
+			cmd.Env = append(os.Environ(), "GOMAXPROCS=3")
+			cmd.Stderr = os.Stderr
+			if err := cmd.Run(); err != nil {
+				eState = "failed"
+				fmt.Fprintln(os.Stderr, "replica: segment process failed:", err)
+				break
+			}
+			s.stat["process-restarts"]++
+			from = to + 1
+		}
+		if f, err := os.Open(histPath + ".e"); err == nil {
 			sc := bufio.NewScanner(f)
 			for sc.Scan() {
 				var hh int64
 				var o nodeObs
 				if n, _ := fmt.Sscanf(sc.Text(), "%d %s %s %s", &hh, &o.app, &o.res, &o.exp); n == 4 {
-					dObs[hh] = o
+					eObs[hh] = o
 				}
 			}
 			f.Close()
 		}
+		os.RemoveAll(histPath + ".edb")
 	} else {
-		dState = "off"
+		eState = "off"
 	}
+	s.stat["replica-e:"+eState]++
+	<-dDone
 	s.stat["replica-d:"+dState]++
 
-	s.t.Line("E history=" + histPath + " replicaD=" + dState)
+	// on a divergence the block history up to the first divergent height is kept under replays/ (it is the replay)
+	replayHist := "-"
+	for _, rc := range recs {
+		d, ok := dObs[rc.height]
+		e, eok := eObs[rc.height]
+		div := rc.obs[0] != rc.obs[1] || rc.obs[0] != rc.obs[2] || (ok && d != rc.obs[0]) || (!ok && dState != "off") ||
+			(eok && e != rc.obs[0]) || (!eok && eState != "off")
+		if div {
+			if abs, err := filepath.Abs(out); err == nil {
+				verif := filepath.Dir(filepath.Dir(filepath.Dir(abs)))
+				dst := filepath.Join(verif, "replays", fmt.Sprintf("C06-history-seed%d-h%d.blocks", seed, rc.height))
+				if copyHistoryPrefix(histPath, dst, rc.height) == nil {
+					replayHist = filepath.Join("replays", filepath.Base(dst))
+				}
+			}
+			break
+		}
+	}
+	s.t.Line("E history=" + histPath + " replicaD=" + dState + " replicaE=" + eState + " divergent-history=" + replayHist)
 	for _, rc := range recs {
 		d, ok := dObs[rc.height]
 		if !ok {
@@ -311,10 +359,17 @@ func runReplica(seed uint64, ops int, out string) map[string]int {
 				d = nodeObs{"missing", "missing", "-"}
 			}
 		}
-		s.t.Line(fmt.Sprintf("O %d block t=%s ntx=%d oktx=%d reads=%d restart=1 tick=%s => ok ah=%s,%s,%s,%s rh=%s,%s,%s,%s ex=%s,%s,%s,%s",
+		e, ok := eObs[rc.height]
+		if !ok {
+			e = nodeObs{"-", "-", "-"}
+			if eState != "off" {
+				e = nodeObs{"missing", "missing", "-"}
+			}
+		}
+		s.t.Line(fmt.Sprintf("O %d block t=%s ntx=%d oktx=%d reads=%d restart=1 tick=%s => ok ah=%s,%s,%s,%s,%s rh=%s,%s,%s,%s,%s ex=%s,%s,%s,%s,%s",
 			rc.height, timeNs(rc.t), rc.ntx, rc.okTx, rc.reads, b01(rc.tick),
-			rc.obs[0].app, rc.obs[1].app, rc.obs[2].app, d.app, rc.obs[0].res, rc.obs[1].res, rc.obs[2].res, d.res,
-			rc.obs[0].exp, rc.obs[1].exp, rc.obs[2].exp, d.exp))
+			rc.obs[0].app, rc.obs[1].app, rc.obs[2].app, d.app, e.app, rc.obs[0].res, rc.obs[1].res, rc.obs[2].res, d.res, e.res,
+			rc.obs[0].exp, rc.obs[1].exp, rc.obs[2].exp, d.exp, e.exp))
 	}
 	for k, v := range h.stat {
 		s.stat[k] += v
@@ -374,4 +429,134 @@ func runReplicaChild(seed uint64, ops int, out string) map[string]int {
 	}
 	of.WriteString(sb.String())
 	return map[string]int{}
+}
+
+// copyHistoryPrefix copies the header and the blocks up to height h of a history file.
+func copyHistoryPrefix(src, dst string, h int64) error {
+	in, err := os.Open(src)
+	if err != nil {
+		return err
+	}
+	defer in.Close()
+	if err := os.MkdirAll(filepath.Dir(dst), 0o755); err != nil {
+		return err
+	}
+	o, err := os.Create(dst)
+	if err != nil {
+		return err
+	}
+	defer o.Close()
+	sc := bufio.NewScanner(in)
+	sc.Buffer(make([]byte, 1<<20), 1<<28)
+	first := true
+	for sc.Scan() {
+		if !first {
+			var br blockRec
+			if json.Unmarshal(sc.Bytes(), &br) == nil && br.Height > h {
+				break
+			}
+		}
+		first = false
+		o.Write(sc.Bytes())
+		o.Write([]byte{'\n'})
+	}
+	return nil
+}
+
+// runReplicaSegment: replica E. One OS process executes the blocks `seed`..`ops` (from..to) of the history file `out` over the
+// on-disk database <out>.edb and appends its observations to <out>.e; the next segment is another process over the same files.
+func runReplicaSegment(from uint64, to int, out string) map[string]int {
+	f, err := os.Open(out)
+	if err != nil {
+		panic(err)
+	}
+	defer f.Close()
+	sc := bufio.NewScanner(f)
+	sc.Buffer(make([]byte, 1<<20), 1<<28)
+	if !sc.Scan() {
+		panic("empty history")
+	}
+	var hd histHeader
+	if err := json.Unmarshal(sc.Bytes(), &hd); err != nil {
+		panic(err)
+	}
+	gen, _ := hex.DecodeString(hd.Genesis)
+	cfg := &ChainCfg{ValKey: ed25519.GenPrivKeyFromSecret([]byte("verif-validator")), GenTime: time.Unix(0, hd.GenTimeNs).UTC(), Genesis: gen}
+	db, err := dbm.NewGoLevelDB("replica-e", out+".edb", nil)
+	if err != nil {
+		panic(err)
+	}
+	defer db.Close()
+	n := &Node{Name: "E", App: newApp(db), DB: db, Cfg: cfg}
+	if from == 1 {
+		if err := n.InitChain(cfg.Genesis, cfg.GenTime, 1); err != nil {
+			fmt.Fprintln(os.Stderr, "replica-e: InitChain failed:", err)
+			os.Exit(1)
+		}
+	} else if n.App.LastBlockHeight() != int64(from)-1 {
+		fmt.Fprintf(os.Stderr, "replica-e: database is at height %d, expected %d\n", n.App.LastBlockHeight(), from-1)
+		os.Exit(1)
+	}
+	of, err := os.OpenFile(out+".e", os.O_APPEND|os.O_CREATE|os.O_WRONLY, 0o644)
+	if err != nil {
+		panic(err)
+	}
+	defer of.Close()
+	for sc.Scan() {
+		var br blockRec
+		if err := json.Unmarshal(sc.Bytes(), &br); err != nil {
+			panic(err)
+		}
+		if br.Height < int64(from) {
+			continue
+		}
+		if br.Height > int64(to) {
+			break
+		}
+		var txs [][]byte
+		for _, t := range br.Txs {
+			bz, _ := hex.DecodeString(t)
+			txs = append(txs, bz)
+		}
+		res, err := n.Block(br.Height, time.Unix(0, br.TimeNs).UTC(), txs)
+		if err != nil {
+			fmt.Fprintf(of, "%d error:%s - -\n", br.Height, gsafe(err.Error()))
+			continue
+		}
+		exp := "-"
+		if br.Export {
+			exp = exportDigest(n)
+		}
+		fmt.Fprintf(of, "%d %s %s %s\n", br.Height, hex.EncodeToString(res.AppHash)[:16], resultsDigest(res), exp)
+	}
+	return map[string]int{}
+}
+
+func runD(histPath string, dObs map[int64]nodeObs, dState *string) {
+	if os.Getenv("VERIF_NO_D") != "" {
+		*dState = "off"
+		return
+	}
+	cmd := exec.Command(os.Args[0], "-suite", "replica-d", "-out", histPath)
+	cmd.Env = append(os.Environ(), "GOMAXPROCS=2")
+	cmd.Stderr = os.Stderr
+	if err := cmd.Run(); err != nil {
+		*dState = "failed"
+		fmt.Fprintln(os.Stderr, "replica: child process failed:", err)
+		return
+	}
+	f, err := os.Open(histPath + ".d")
+	if err != nil {
+		*dState = "failed"
+		return
+	}
+	defer f.Close()
+	sc := bufio.NewScanner(f)
+	for sc.Scan() {
+		var hh int64
+		var o nodeObs
+		if n, _ := fmt.Sscanf(sc.Text(), "%d %s %s %s", &hh, &o.app, &o.res, &o.exp); n == 4 {
+			dObs[hh] = o
+		}
+	}
 }
